@@ -58,6 +58,12 @@ WS = [" ", "  ", "    ", "\t", "\u00a0", "\u3000"]
 MARKERS = [" (deleted)", "(deleted)", " [vdso]", ";1", " (copy)", "~", ".bak", ".", "..", "%20", "\x00"]
 EXTS = [".pdb", ".PDB", ".Pdb", ".dll", ".DLL", ".sym", ".so", ".so.6", ".exe", ".dylib", ".dbg", ".pd_", ".dl_"]
 DIRS = ["", "/d/", "C:\\x\\", "a\\b/", "\\\\?\\C:\\", "//srv/share/"]
+# Characters whose Unicode case mappings produce ASCII letters or change length: a case fold applied AFTER the validation turns
+# `<KELVIN SIGN>:x` into `k:x` (a drive prefix; to_lowercase), `<LONG S>:` / `<DOTLESS I>:` into `S:` / `I:` (to_uppercase); U+0130 lowers
+# to `i` + U+0307, U+00DF / U+FB01 / U+0149 / U+1E9E change length.  Placed right before `:` at the start of a leaf and next to `.`.
+CASE_MAPPED = ["\u212a", "\u017f", "\u0131", "\u0130", "\u00df", "\ufb01", "\u0149", "\u1e9e", "\u212b", "\u03a3"]
+CASE_MAPPED_SHAPES = ["%s:", "%s:x.pdb", "%s:payload.pdb", "%s:\\x", "%s", "%s.", ".%s", ".%s.", "%s..", "..%s", "%s%s:", "x%s:", "%s.pdb", "%s.PDB",
+                      "%s.dll", "%s: ", " %s:"]
 # characters that are syntax to a URL parser, in every percent spelling
 URL_PUNCT = ".:/\\?#%@"
 
@@ -94,7 +100,7 @@ class C17(PropBase):
             "{a . / \\ : NUL e-acute} up to length 5 used as code_file and debug_file at once, up to length 4 paired with "
             "partner strings (ordinary, '..', '', drive-prefixed), plus random long strings with mixed separators, drive and UNC "
             "prefixes, plus the hostile-name dictionary (every core '..', '', 'C:', '.', encoded separators in every spelling x wrapper "
-            "(whitespace, markers, extensions, the checkout's own string literals) x position x directory style x role); url probe: every percent "
+            "(whitespace, markers, extensions, the checkout's own string literals) x position x directory style x role; characters whose case mappings yield ASCII letters or change length (KELVIN SIGN, LONG S, dotless / dotted I, sharp s, ligatures) before ':' at the start of a leaf and next to '.'); url probe: every percent "
             "spelling of . : / \\ ? # % @, all dot-segment spellings, server-URL cases; raw references for Url::join (schemes x slash runs x authorities/paths, random); code-info redirects (prefix x server-supplied debug file x id x tail); ids nil / ordinary / maximal / PDB2.0 / absent, code ids with "
             "non-hex bytes; a case is non-trivial when at "
             "least one builder returned a path; distinct = distinct case lines")
@@ -238,7 +244,7 @@ class C17(PropBase):
         # random long strings
         atoms = [b"a", b"B", b".", b"..", b"/", b"\\", b":", b"C:", b"\\\\", b"//", b"\\\\?\\", b"\\\\server\\share\\", b"c:\\",
                  b"Windows", b"kernel32", b".pdb", b".PDB", b".Pdb", b".dll", b".DLL", b".sym", b".so", b" ", b"\t", b"\x00", b"%2e",
-                 "\u00e9".encode(), "\u212a".encode(), "\u0130".encode(), "\U0001f600".encode(), b"pdb", b"dll", b"_", b"-", b"~", b"..."]
+                 "\u00e9".encode(), "\u212a".encode(), "\u0130".encode(), "\U0001f600".encode(), "\u212a:".encode(), "\u017f:".encode(), "\u0131:".encode(), b"pdb", b"dll", b"_", b"-", b"~", b"..."]
         nrand = 3000 if tier == "quick" else 60000
         # dictionary block (see CORE_SPELLINGS): core spelling x wrapper x position x directory style x role
         lits = [l for l in self.source_literals() if l]
@@ -268,6 +274,10 @@ class C17(PropBase):
         for l in lits:                     # the literals on their own and doubled (strip-once vs strip-all)
             for leaf in (l, l + l, l + " " + l, l.upper(), l.lower()):
                 emit(leaf, False)
+
+        for ch in CASE_MAPPED:             # case-mapping characters before `:` at the start of a leaf and next to `.` (seeded C17-7)
+            for shape in CASE_MAPPED_SHAPES:
+                emit(shape.replace("%s", ch), True)
 
         def rstr():
             n = rng.range(0, 12) if rng.chance(3, 4) else rng.range(10, 60)
